@@ -12,6 +12,7 @@ import (
 	"testing"
 
 	"cosmossdk.io/log"
+	abci "github.com/cometbft/cometbft/abci/types"
 	cmtproto "github.com/cometbft/cometbft/proto/tendermint/types"
 	cryptotypes "github.com/cosmos/cosmos-sdk/crypto/types"
 	sdk "github.com/cosmos/cosmos-sdk/types"
@@ -164,7 +165,13 @@ type c19Pool struct {
 	removed map[int]bool
 	hist    []string
 	nextID  int
-	tainted bool // a replacement changed the priority: outside the property's precondition
+	tainted bool // a replacement changed the priority: outside the assumption `Admissible` of the theorems (C19.md)
+
+	// the iterator in use (ops iopen / inext): Insert, Remove and Select may come between two Next()
+	live        sdkmempool.Iterator
+	liveSeen    map[int]bool
+	liveLast    map[string]uint64
+	liveTouched bool // a pool operation happened since the last iopen / inext
 }
 
 func (r *Rec) c19New() *c19Pool {
@@ -176,6 +183,72 @@ func (r *Rec) c19New() *c19Pool {
 func (p *c19Pool) op(line, out string) {
 	p.hist = append(p.hist, line+" => "+out)
 	p.r.Op(line, out)
+	if !strings.HasPrefix(line, "iopen") && !strings.HasPrefix(line, "inext") && !strings.HasPrefix(line, "count") {
+		p.liveTouched = true
+	}
+}
+
+// liveStep performs Select (open) or Next() on the iterator in use and evaluates, on what the
+// real iterator yields, the safety clauses that must survive ANY interleaving with Insert / Remove /
+// Select: only the current pending transaction of a key, never a removed or replaced one, nothing
+// twice, per sender strictly increasing sequence numbers.
+func (p *c19Pool) liveStep(open bool) {
+	name := "inext"
+	if open {
+		name = "iopen"
+		p.liveSeen, p.liveLast = map[int]bool{}, map[string]uint64{}
+	} else if p.live == nil {
+		p.op(name, "it none")
+		p.r.Stat("live.inext.none")
+		return
+	}
+	if p.liveTouched && !open {
+		p.r.Stat("live.inext.after_pool_op")
+	}
+	var tx *c19Tx
+	panicked := false
+	func() {
+		defer func() {
+			if e := recover(); e != nil {
+				panicked = true
+			}
+		}()
+		if open {
+			p.live = p.mp.Select(context.Background(), nil)
+		} else {
+			p.live = p.live.Next()
+		}
+		if p.live != nil {
+			tx = p.live.Tx().(*c19Tx)
+		}
+	}()
+	p.liveTouched = false
+	switch {
+	case panicked:
+		p.live = nil
+		p.op(name, "it panic")
+		p.r.Stat("live." + name + ".panic")
+	case p.live == nil:
+		p.op(name, "it nil")
+		p.r.Stat("live." + name + ".nil")
+	default:
+		p.op(name, fmt.Sprintf("it %s:%d:%d", tx.sender, tx.nonce, tx.id))
+		p.r.Stat("live." + name + ".tx")
+		if p.removed[tx.id] {
+			p.hit("live_never_removed", fmt.Sprintf("live iterator yields removed/replaced tx %d (%s:%d)", tx.id, tx.sender, tx.nonce))
+		}
+		if cur, ok := p.pending[c19Key{tx.sender, tx.nonce}]; !ok || cur.id != tx.id {
+			p.hit("live_only_pending", fmt.Sprintf("live iterator yields tx %d (%s:%d) which is not pending", tx.id, tx.sender, tx.nonce))
+		}
+		if p.liveSeen[tx.id] {
+			p.hit("live_once", fmt.Sprintf("live iterator yields tx %d (%s:%d) twice", tx.id, tx.sender, tx.nonce))
+		}
+		if last, ok := p.liveLast[tx.sender]; ok && tx.nonce <= last {
+			p.hit("live_sender_increasing", fmt.Sprintf("live iterator: %s nonce %d after %d", tx.sender, tx.nonce, last))
+		}
+		p.liveSeen[tx.id] = true
+		p.liveLast[tx.sender] = tx.nonce
+	}
 }
 
 func (p *c19Pool) hit(monitor, what string) {
@@ -478,7 +551,7 @@ func TestC19(t *testing.T) {
 		r.Op("ctxprio", out)
 	}
 
-	// ---------- fixed histories at the edge of / outside the precondition (the code as it is) ----------
+	// ---------- fixed histories at the edge of / outside the assumptions of the theorems (the code as it is) ----------
 	{
 		send := []sdk.Msg{&banktypes.MsgSend{}}
 		// (1) re-inserting a pending (sender, nonce) with a different priority: the sender-index
@@ -536,7 +609,7 @@ func TestC19(t *testing.T) {
 		maxNonce := 1 + r.Rng.Intn(6)
 		nOps := 3 + r.Rng.Intn(40)
 		mode := r.Rng.Intn(10)
-		// mode 0: histories with priority-changing replacement (outside the precondition; correspondence only)
+		// mode 0: histories with priority-changing replacement (outside `Admissible`; correspondence only)
 		// mode 1,2: few priorities, many cross-sender ties; mode 3: classes only; else mixed
 		allowChange := mode == 0
 		selects := 0
@@ -632,5 +705,219 @@ func TestC19(t *testing.T) {
 			r.Stat("cases.outside_precondition")
 		}
 		r.Case(strings.Join(p.hist, ";"), len(out) >= 2 && len(senders) >= 2 && selects >= 1)
+	}
+
+	// ---------- an iterator in use while the pool changes (after the histories above, so that their
+	// random stream is unchanged) ----------
+	{
+		send := []sdk.Msg{&banktypes.MsgSend{}}
+		// (L1) removing the transaction the iterator stands on ends the iteration: b:0 and the rest
+		// are not proposed by this iterator (model: live_remove_current_ends_iteration)
+		p := r.c19New()
+		p.insert(p.mkTx(0, 0, send, 9))
+		p.insert(p.mkTx(1, 0, send, 5))
+		p.insert(p.mkTx(2, 0, send, 3))
+		p.liveStep(true)
+		p.remove(0, 0)
+		p.liveStep(false)
+		p.liveStep(false)
+		if p.live == nil && p.mp.CountTx() == 2 {
+			r.Stat("finding.live_remove_of_current_tx_ends_iteration")
+		}
+		// (L2) re-submitting the transaction the iterator stands on (same priority: inside the
+		// precondition) unlinks its priority element; the next Next() dereferences nil
+		// (model: live_reinsert_current_panics)
+		p = r.c19New()
+		p.insert(p.mkTx(0, 0, send, 9))
+		p.insert(p.mkTx(0, 1, send, 5))
+		p.insert(p.mkTx(1, 0, send, 5))
+		p.liveStep(true)
+		p.insert(p.mkTx(0, 0, send, 9))
+		n0 := r.Stats["live.inext.panic"]
+		p.liveStep(false)
+		if r.Stats["live.inext.panic"] == n0+1 {
+			r.Stat("finding.live_reinsert_of_current_tx_panics")
+		}
+		p.sel()
+		// (L3) an insert behind the cursor is picked up, one before it is not; a second Select
+		// re-weighs tied elements and kills the first iterator's priority node
+		p = r.c19New()
+		p.insert(p.mkTx(0, 1, send, 5))
+		p.insert(p.mkTx(1, 0, send, 5))
+		p.liveStep(true)
+		p.insert(p.mkTx(0, 0, send, 5))
+		p.insert(p.mkTx(0, 2, send, 5))
+		p.liveStep(false)
+		p.liveStep(false)
+		p.liveStep(false)
+		p.liveStep(true)
+		p.sel()
+		p.liveStep(false)
+		p.liveStep(false)
+	}
+	for i := 0; i < r.N/3; i++ {
+		p := r.c19New()
+		nSenders := 2 + r.Rng.Intn(4)
+		maxNonce := 1 + r.Rng.Intn(5)
+		nOps := 6 + r.Rng.Intn(40)
+		few := r.Rng.Intn(3) // 0: mixed classes and priorities, 1/2: few priorities (ties)
+		yields := 0
+		for j := 0; j < nOps; j++ {
+			switch x := r.Rng.Intn(20); {
+			case x < 7 || (j < 4 && x < 14):
+				si := r.Rng.Intn(nSenders)
+				nonce := uint64(r.Rng.Intn(maxNonce))
+				var msgs []sdk.Msg
+				var pri int64
+				if few == 0 {
+					msgs = r.c19Msgs(-1)
+					pri = c19CtxPris[r.Rng.Intn(len(c19CtxPris))]
+				} else {
+					msgs = []sdk.Msg{&banktypes.MsgSend{}}
+					pri = int64(r.Rng.Intn(few + 1))
+				}
+				tx := p.mkTx(si, nonce, msgs, pri)
+				if old, ok := p.pending[c19Key{tx.sender, nonce}]; ok && (c19Less(old, tx) || c19Less(tx, old)) {
+					// stay inside the precondition: re-submission with the same rank
+					tx.msgs, tx.urls, tx.ctxPri = old.msgs, old.urls, old.ctxPri
+				}
+				p.insert(tx)
+			case x < 10:
+				if len(p.pending) > 0 && r.Rng.Intn(6) != 0 {
+					keys := make([]c19Key, 0, len(p.pending))
+					for k := range p.pending {
+						keys = append(keys, k)
+					}
+					sort.Slice(keys, func(a, b int) bool {
+						if keys[a].sender != keys[b].sender {
+							return keys[a].sender < keys[b].sender
+						}
+						return keys[a].nonce < keys[b].nonce
+					})
+					k := keys[r.Rng.Intn(len(keys))]
+					// prefer the transaction the iterator stands on
+					if p.live != nil && r.Rng.Intn(3) == 0 {
+						func() {
+							defer func() { _ = recover() }()
+							cur := p.live.Tx().(*c19Tx)
+							k = c19Key{cur.sender, cur.nonce}
+						}()
+					}
+					for si := 0; si < 8; si++ {
+						if sdk.AccAddress(c19Addr(si)).String() == k.sender {
+							p.remove(si, k.nonce)
+						}
+					}
+				} else {
+					p.remove(r.Rng.Intn(nSenders+1), uint64(r.Rng.Intn(maxNonce+1)))
+				}
+			case x < 12:
+				p.liveStep(true)
+			case x < 18:
+				p.liveStep(false)
+				yields++
+			case x < 19:
+				if r.Rng.Intn(2) == 0 {
+					p.selN(r.Rng.Intn(len(p.pending) + 2))
+				} else {
+					p.sel()
+				}
+			default:
+				p.count()
+			}
+		}
+		// run the iterator in use to its end
+		for k := 0; p.live != nil && k < 60; k++ {
+			p.liveStep(false)
+		}
+		p.count()
+		r.Case(strings.Join(p.hist, ";"), yields >= 2)
+	}
+
+	c19FullAppAdmission(t, r)
+}
+
+// c19FullAppAdmission replays, on the REAL application (baseapp + ante chain + the application
+// mempool as app.go wires them), the two facts the admission model of Props/C19.lean rests on
+// (AOp.checkTx / AOp.commit, theorems admission_admissible and admission_uncovered_replaces):
+//
+//  1. while a transaction with (sender, sequence n) is pending and has been checked, a second
+//     transaction with the same (sender, n) is refused by CheckTx (ante sequence check against the
+//     check state) — monitor admission_sequence_check;
+//  2. after a Commit that is NOT followed by CometBFT's re-check of the pending transaction (the
+//     fixture drives ABCI directly, which is what `recheck = false` amounts to), the second
+//     transaction IS accepted, replaces the pending one under the same key with a different
+//     priority, and the application mempool then withholds it from a proposal — recorded as a
+//     finding outside the property's precondition (stat), not as a monitor hit.
+func c19FullAppAdmission(t *testing.T, r *Rec) {
+	fa := NewFullApp(t, FullAppOpts{NumValidators: 2, NumUsers: 2, Seed: 19})
+	fa.NextBlock()
+	u0, u1 := fa.User(0), fa.User(1)
+	_, seq := fa.accNumSeq(u0.Addr)
+	build := func(signer *FAAccount, sq uint64, msg sdk.Msg) []byte {
+		bz, err := fa.BuildTx(FATx{Msgs: []sdk.Msg{msg}, Signers: []*FAAccount{signer}, Sequences: []uint64{sq}}, nil)
+		if err != nil {
+			t.Fatalf("C19 full app: build tx: %v", err)
+		}
+		return bz
+	}
+	check := func(bz []byte) uint32 {
+		res, err := fa.App().CheckTx(&abci.RequestCheckTx{Tx: bz, Type: abci.CheckTxType_New})
+		if err != nil {
+			return 1 << 30
+		}
+		return res.Code
+	}
+	count := func() int { return fa.App().Mempool().CountTx() }
+	selected := func() int {
+		n := 0
+		func() {
+			defer func() { _ = recover() }()
+			for it := fa.App().Mempool().Select(context.Background(), nil); it != nil; it = it.Next() {
+				n++
+			}
+		}()
+		return n
+	}
+	bank := &banktypes.MsgSend{FromAddress: u0.Addr.String(), ToAddress: u1.Addr.String(), Amount: faCoins(1)}
+	cons := &consensustypes.MsgAddMessagesSignatures{Metadata: FAMeta(u0.Addr, u0.Addr)}
+	_, seq1 := fa.accNumSeq(u1.Addr)
+	keep := &valsettypes.MsgKeepAlive{Metadata: FAMeta(u1.Addr, u1.Addr), PigeonVersion: "v2.4.0"}
+
+	if c := check(build(u0, seq, bank)); c != 0 || count() != 1 {
+		r.Stat("fullapp.setup_failed")
+		t.Logf("C19 full app: first CheckTx code %d count %d", c, count())
+		return
+	}
+	r.Stat("fullapp.first_tx_accepted")
+	// (1) same (sender, sequence) again while the first one is pending and checked
+	if c := check(build(u0, seq, cons)); c == 0 {
+		r.Hit("admission_sequence_check", "CheckTx accepted a second transaction with a pending (sender, sequence)",
+			map[string]interface{}{"sequence": seq, "count": count()})
+	} else {
+		r.Stat("fullapp.second_tx_same_seq_rejected_while_checked")
+	}
+	if count() != 1 {
+		r.Hit("admission_sequence_check", "a rejected CheckTx changed the application mempool", map[string]interface{}{"count": count()})
+	}
+	// (2) a commit without re-check of the pending transaction
+	fa.NextBlock()
+	if count() != 1 {
+		r.Stat("fullapp.pool_changed_by_commit")
+		return
+	}
+	if c := check(build(u0, seq, cons)); c != 0 {
+		r.Stat("fullapp.second_tx_rejected_after_commit")
+		return
+	}
+	r.Stat("finding.fullapp_same_seq_accepted_after_commit_without_recheck")
+	if c := check(build(u1, seq1, keep)); c != 0 {
+		r.Stat("fullapp.third_tx_rejected")
+		return
+	}
+	if count() == 2 && selected() == 1 {
+		// the pending consensus message of u0 (priority MaxInt64, sender element still keyed with 42)
+		// is not offered to the proposer; only u1's keep-alive is
+		r.Stat("finding.fullapp_replaced_tx_not_proposed")
 	}
 }
